@@ -47,10 +47,14 @@ def run(run):
             with guard(run, 'str(relations(include_unary=%r))' % unary, [pc.line, r], 'defined'):
                 s1 = str(rels)
                 s2 = rels.tostring()
-            if s1 != render(pc, items, True):
-                run.fail('str(relations(include_unary=%r))' % unary, s1, render(pc, items, True), [pc.line, r], extra)
-            if s2 != render(pc, items, False):
-                run.fail('relations(include_unary=%r).tostring()' % unary, s2, render(pc, items, False), [pc.line, r], extra)
+            from props.c12 import hexs, hexl, unhex
+            r1 = 'relstr %d 1 %s' % (unary, hexl(pc.properties))
+            r2 = 'relstr %d 0 %s' % (unary, hexl(pc.properties))
+            m1, m2 = (unhex(x) for x in d.ask_many([r1, r2]))
+            if s1 != m1 or s1 != render(pc, items, True):
+                run.fail('str(relations(include_unary=%r))' % unary, s1, m1, [pc.line, r1], extra)
+            if s2 != m2 or s2 != render(pc, items, False):
+                run.fail('relations(include_unary=%r).tostring()' % unary, s2, m2, [pc.line, r2], extra)
             if not items:
                 run.count('empty results')
             # a second context with the same table and other property labels (statements are about labels)
